@@ -79,7 +79,7 @@ def gen_history(rng, impl_counter):
             impl_counter[0] += 1
             hist.append(["d", rng.choice(USER_MODULES), rng.choice(NAMES), impl_counter[0]])
         else:
-            k = rng.randrange(1, 4)
+            k = rng.randrange(1, 4) if rng.random() < 0.9 else 0        # sometimes the empty request: no library, no command
             pool = USER_LIBS + BUILTIN + (["mpilot.libraries.eems"] if rng.random() < 0.15 else [])
             hist.append(["c", rng.sample(pool, k)])
     hist.append(["c", rng.sample(USER_LIBS + BUILTIN, rng.randrange(1, 4))])
@@ -120,6 +120,88 @@ def check_offer(ctx, before, libs, out, hist):
         ctx.fail("requesting %r was refused for duplicates %r although no name is defined twice under those libraries" % (libs, out[1]), {"history": hist, "request": libs})
 
 
+# ---- libraries that exist only as files: their commands register when (and only when) the library is imported by a Program that requests it
+
+DISK_FILES = {
+    "dl.py": ("dl", "Eps"), "dlib.py": ("dlib", "Alpha"), "dlib_extra/__init__.py": None, "dlib_extra/inner.py": ("dlib_extra.inner", "Beta"),
+    "dlib_more.py": ("dlib_more", "Gamma"), "dlibx.py": ("dlibx", "Delta"), "dpack/__init__.py": ("dpack", "Zeta"), "dpack/sub.py": ("dpack.sub", "Eta"),
+    "dpack/sub2.py": ("dpack.sub2", "Alpha"),
+}
+DISK_LIBS = ["dl", "dlib", "dlib_extra", "dlib_more", "dlibx", "dpack", "dpack.sub", "dlib_extra.inner"]
+
+DISK_RUNNER = r'''
+import sys, json
+sys.path.insert(0, SCRATCH)
+sys.path.insert(0, LIBDIR)
+from mpilot.program import Program
+from mpilot.exceptions import MPilotError
+out = []
+for libs in json.loads(REQUESTS):
+    try:
+        p = Program(libraries=tuple(libs)) if libs != "default" else Program()
+        out.append(["ok", sorted("%s=%s" % (n, c.__module__) for n, c in p.command_library.items())])
+    except MPilotError as e:
+        out.append(["dup", sorted(x.strip() for x in str(e).split(":")[-1].split(","))])
+    except Exception as e:
+        out.append(["raw", type(e).__name__ + ": " + str(e)[:200]])
+print(json.dumps(out))
+'''
+
+
+def disk_histories(ctx, scratch):
+    """request sequences over on-disk libraries with prefix-related names, each sequence in a fresh interpreter: every request is offered exactly the
+    commands of the modules under the libraries it names - whatever was requested before, in whatever order; the empty request is offered nothing"""
+    rng = ctx.rng
+    libdir = common.tmpdir("mpv_c19_")
+    for rel, what in DISK_FILES.items():
+        path = os.path.join(libdir, rel)
+        os.makedirs(os.path.dirname(path), exist_ok=True)
+        with open(path, "w") as f:
+            if what:
+                f.write("from mpilot.commands import Command\n\n\nclass %s(Command):\n    def execute(self, **kwargs):\n        return None\n" % what[1])
+    defined = [w for w in DISK_FILES.values() if w]
+    builtin = {}
+    for m, n in builtin_entries():
+        builtin.setdefault(m, []).append(n)
+
+    def expected(libs):
+        if libs == "default":
+            libs = ["mpilot.libraries.eems.basic", "mpilot.libraries.eems.csv", "mpilot.libraries.eems.fuzzy"]
+        table = ["%s=%s" % (n, m) for m, n in defined if any(m == l or m.startswith(l + ".") for l in libs)]
+        for m, names in builtin.items():
+            if any(m == l or m.startswith(l + ".") for l in libs):
+                table += ["%s=%s" % (n, m) for n in names]
+        return sorted(table)
+
+    seqs = [[["dl"], ["dlib"], ["dlib_extra"], ["dlib_more"], ["dlibx"], ["dpack.sub"], ["dpack"]],
+            [["dlib"], ["dlib_extra", "dlib_more"], ["dlib"]], [[], ["dlib"], []], ["default", [], ["dlib"], "default"], [["dpack"], ["dpack.sub"], ["dlib_extra.inner"], ["dlib_extra"]]]
+    for _ in range(ctx.budget(8, 200)):
+        seq = []
+        for _ in range(rng.randrange(2, 7)):
+            r = rng.random()
+            seq.append([] if r < 0.1 else "default" if r < 0.15 else rng.sample(DISK_LIBS + BUILTIN[:1], rng.randrange(1, 4)))
+        seqs.append(seq)
+    for seq in seqs:
+        code = DISK_RUNNER.replace("SCRATCH", repr(scratch)).replace("LIBDIR", repr(libdir)).replace("REQUESTS", repr(json.dumps(seq)))
+        p = subprocess.run([sys.executable, "-c", code], stdout=subprocess.PIPE, stderr=subprocess.PIPE, universal_newlines=True, timeout=300)
+        ctx.case("disk " + json.dumps(seq), sample={"requests": seq})
+        ctx.count("disk_request_sequences")
+        if p.returncode != 0:
+            ctx.fail("a sequence of Program constructions crashed the interpreter: %s" % p.stderr[-400:], {"requests": seq})
+            continue
+        outs = json.loads(p.stdout.strip().split("\n")[-1])
+        for k, (libs, o) in enumerate(zip(seq, outs)):
+            want = expected(libs)
+            names = [x.split("=")[0] for x in want]
+            ctx.count("disk_requests")
+            if len(set(names)) != len(names):
+                if o[0] != "dup":
+                    ctx.fail("request %d %r of the sequence names two commands of the same name but was accepted" % (k, libs), {"requests": seq, "got": o[1][:8]})
+            elif o[0] != "ok" or o[1] != want:
+                ctx.fail("request %d %r of the sequence is offered %s; the modules under the requested libraries define %r" % (
+                    k, libs, (o[0] + " " + repr(o[1]))[:300], want[:12]), {"requests": seq, "request": libs})
+
+
 def run(ctx):
     ctx.check_proofs(["MPilot.Props.C19"])
     model = common.Model()
@@ -133,6 +215,7 @@ def run(ctx):
         [["d", "ulib", "Alpha", 1], ["d", "ulib_extra", "Beta", 2], ["d", "ulib.sub", "Gamma", 3], ["c", ["ulib", "ulib_extra"]], ["c", ["ulib_extra", "ulib"]], ["c", ["ulib"]], ["c", ["ulibx", "ulib.sub"]]],
         [["c", ["mpilot.libraries.eems"]], ["c", ["mpilot.libraries.eems.csv"]], ["d", "ulib", "EEMSRead", 1], ["c", ["mpilot.libraries.eems.netcdf"]], ["c", ["ulib", "mpilot.libraries.eems.csv"]]],
         [["d", "ulib", "Alpha", 1], ["c", ["ulib"]], ["d", "ulib", "Alpha", 2], ["c", ["ulib"]], ["d", "vlib", "Alpha", 3], ["c", ["ulib"]], ["c", ["vlib", "ulib"]]],
+        [["c", []], ["d", "ulib", "Alpha", 1], ["c", []], ["c", ["ulib"]], ["c", []]],
     ]
     answers = model.ask([model_line(h, builtin) for h in hists])
     for hist, ans in zip(hists, answers):
@@ -170,6 +253,7 @@ def run(ctx):
                 mod = item.split("=")[1].split("#")[0]
                 if not any(mod == l or mod.startswith(l + ".") for l in last[1]):
                     ctx.fail("command %s comes from module %s, which is not one of the requested libraries %r nor beneath one" % (item, mod, last[1]), {"history": hist})
+    disk_histories(ctx, scratch)
     return ctx.finish(
         rule="histories of 3-9 events in a fresh interpreter each: class definitions (5 command names incl. names of built-ins) in 7 synthetic modules whose names are "
              "prefixes/extensions/sub-modules of one another, interleaved with Program constructions for 1-3 libraries drawn from user and built-in libraries "
